@@ -117,7 +117,7 @@ class Lock:
         self.f.close()
 
 
-def coq_make(targets=None, timeout=1500, jobs=16):
+def coq_make(targets=None, timeout=900, jobs=16):
     """Full .vo build of everything (make -k), then the requested targets must exist.
     -> (ok, log)"""
     with Lock():
@@ -129,16 +129,18 @@ def coq_make(targets=None, timeout=1500, jobs=16):
         rc, out = sh(['coq_makefile', '-f', '_CoqProject', '-o', 'Makefile'], 60, cwd=COQ)
         if rc != 0:
             return False, out
-        rc, out = sh(['make', '-k', f'-j{jobs}'], timeout, cwd=COQ)
-        log = out
-        ok = True
-        for t in targets or []:
-            rc2, out2 = sh(['make', t], timeout, cwd=COQ)
+        if targets is None:
+            # setup: build everything that builds; a file of an unfinished property must not block the rest
+            rc, out = sh(['make', '-k', f'-j{jobs}'], timeout, cwd=COQ)
+            return rc == 0, out
+        # a check builds its own property file and what it depends on, nothing else
+        log, ok = '', True
+        for t in targets:
+            rc2, out2 = sh(['make', f'-j{jobs}', t], timeout, cwd=COQ)
+            log += out2
             if rc2 != 0 or not os.path.exists(os.path.join(COQ, t)):
                 ok = False
-                log += f'\n--- target {t} failed ---\n' + out2
-        if targets is None and rc != 0:
-            ok = False
+                log += f'\n--- target {t} failed ---\n'
         return ok, log
 
 
